@@ -41,7 +41,9 @@ def maxNK : Nat := 13000
 * `greedyf <k> <n> <f64 bit patterns, hex…> <m> <p…>`: weights whose sums are not exact in
   `f64`; the integer model does not apply → `skip` (oracle only)
 * `kk <k> <ids|loads> <n> <w…> <m> <p…>` → `ok ids <ids>` | `ok loads <sorted loads>`
-  | `lenmismatch` | `panic`
+  | `lenmismatch` | `panic`; `kkr …`: the same through the float weight type `coupe::Real`
+  (integer values; a weight written `-0` is -0.0 on the Rust side and 0 here, also in
+  `greedy f64`)
 Large cases (see `maxN`, `maxNK`) → `skip large-n (oracle only)`. -/
 def handle (toks : List String) : String :=
   match toks with
@@ -55,7 +57,13 @@ def handle (toks : List String) : String :=
       match Coupe.Greedy.run p ws k with
       | .ok ids => "ok " ++ joinNats ids
       | .lenMismatch => "lenmismatch"
-  | "kk" :: k :: cmp :: rest =>
+  | "kkr" :: k :: cmp :: rest => handleKk k cmp rest
+  | "kk" :: k :: cmp :: rest => handleKk k cmp rest
+  | _ => "bad-op"
+where
+  /-- `kk` (i64 weights) and `kkr` (the same integer values as `coupe::Real`, `-0` = the
+  float -0.0, which the model reads as 0). -/
+  handleKk (k cmp : String) (rest : List String) : String :=
     if cmp ≠ "ids" ∧ cmp ≠ "loads" then "bad-op" else
     let n := (rest.head?.bind parseNat?).getD 0
     let kk := (parseNat? k).getD 0
@@ -69,6 +77,5 @@ def handle (toks : List String) : String :=
         else "ok loads " ++ joinInts (sortAsc (Coupe.loads ws ids (max k 1)))
       | .lenMismatch => "lenmismatch"
       | .abort => "panic"
-  | _ => "bad-op"
 
 end Coupe.Driver.C12
